@@ -106,6 +106,14 @@ theorem held_after_drop_create (db : Nat) (v : DbView) (a : Assignment) :
     (dbViewStep db (dbViewStep db v (.dropDb db)) (.assignChanged db a)).held = some a := by
   simp [dbViewStep]
 
+/-- after a drop of `db` and a payload `a` for it, followed by events that do not name `db`'s assignment,
+`a` is what `db`'s history holds — whatever came before -/
+theorem dbView_after_recreate (db : Nat) (a : Assignment) (es ns : List Event)
+    (hns : ∀ e ∈ ns, ¬ NamesAsg db e) :
+    (dbView db (es ++ [.dropDb db, .assignChanged db a] ++ ns)).held = some a := by
+  rw [dbView_append, dbView_append, held_foldl_of_not_names db ns _ hns]
+  exact held_after_drop_create db _ a
+
 /-! NOT the code — what a slip would compute (see the `example` in Props/C18.lean): `ReplicasOnNode`
 answered through a per-database index that is rebuilt only when the database's shard count changes and
 that `DropDatabase` leaves behind. `idx` = for each database the assignment its index was built from. -/
